@@ -4,7 +4,7 @@ import hashlib, json, collections
 from vlib.common import Hex
 
 ASPECT_THEOREMS = {
-    "C01": ["pe_law_extract", "pe_law_extract_aligned", "pe_law_hashin", "pe_format_laws", "pe_sign_then_verify", "pe_refuses_clean",
+    "C01": ["pe_digest_no_panic", "pe_law_extract", "pe_law_extract_aligned", "pe_law_hashin", "pe_format_laws", "pe_sign_then_verify", "pe_refuses_clean",
             "pe_accepts_wf", "pe_accepts_all_contiguous_refuted", "pe_embed_defined"],
     "C08": ["pe_law_hashin", "pe_format_laws", "pe_resign_history", "pe_is_signed_spec", "pe_refuses_trailing_garbage"],
     "C03": ["pe_law_payload", "pe_format_laws", "pe_only_these_ranges_differ"],
